@@ -26,6 +26,7 @@ Hypothesis Htable : forall fs, Forall P fs -> P (ETable fs).
 Hypothesis Hfpos : forall e, P e -> P (FPos e).
 Hypothesis Hfnamed : forall n e, P e -> P (FNamed n e).
 Hypothesis Hfkey : forall k e, P k -> P e -> P (FKey k e).
+Hypothesis Htableml : forall fs, Forall P fs -> P (ETableML fs).
 Fixpoint exp_ind' (e : exp) : P e :=
   let all := fix all (l : list exp) : Forall P l := match l with [] => Forall_nil P | x :: r => Forall_cons x (exp_ind' x) (all r) end in
   match e with
@@ -42,6 +43,7 @@ Fixpoint exp_ind' (e : exp) : P e :=
   | FPos x => Hfpos x (exp_ind' x)
   | FNamed n x => Hfnamed n x (exp_ind' x)
   | FKey k x => Hfkey k x (exp_ind' k) (exp_ind' x)
+  | ETableML fs => Htableml fs (all fs)
   end.
 End ExpInd.
 
@@ -73,7 +75,7 @@ Hypothesis obs_cons : forall t r r', obs r = obs r' -> obs (t :: r) = obs (t :: 
 Hypothesis obs_lparen : forall r, obs (kw "(" :: r) = obs r.
 Hypothesis obs_rparen : obs [kw ")"] = [].
 Hypothesis obs_comma : forall r, obs (kw "," :: sp :: r) = obs r.
-Hypothesis obs_ws : forall w r, obs (TWs w :: r) = obs r.
+Hypothesis obs_ws : forall w r, forallb blank w = true -> obs (TWs w :: r) = obs r.       (* blanks; line breaks may be observed *)
 Section ObsExp.
 Variable c0 : cfg0.
 Notation pexp := (Fmt0.pexp c0).
@@ -97,9 +99,9 @@ Lemma erase_commas_congr (f g : exp -> list tok) l :
 Proof.
   intros H. rewrite !erase_commas, !map_map. f_equal. induction H as [|x r Hx Hr IH]; cbn [map]; [reflexivity|]. rewrite Hx, IH. reflexivity.
 Qed.
-Lemma erase_parens x : obs (kw "(" :: pexp x ++ [kw ")"]) = obs (pexp x).
+Lemma erase_parens d x : obs (kw "(" :: pexp d x ++ [kw ")"]) = obs (pexp d x).
 Proof. rewrite erase_kw_paren_l, obs_app, erase_kw_paren_r, app_nil_r. reflexivity. Qed.
-Lemma erase_guard u x : obs (pexp (guard0 u x)) = obs (pexp x).
+Lemma erase_guard d u x : obs (pexp d (guard0 u x)) = obs (pexp d x).
 Proof.
   unfold guard0. destruct u; try reflexivity. destruct (starts_neg (shape x)); [|reflexivity].
   cbn [pexp]. apply erase_parens.
@@ -108,20 +110,37 @@ Ltac congr := repeat first [ reflexivity | assumption | apply obs_app_congr | ap
 (* parentheses around call arguments, and the blank in front of them, are not observed *)
 Lemma erase_pargs b xs : obs (pargs c0 b xs) = obs xs.
 Proof.
-  unfold pargs, gap_call, gap_sugar. destruct b; [apply obs_ws|]. destruct (CallForm.space_call (space0 c0)); cbn [app]; unfold sp; rewrite ?obs_ws;
+  unfold pargs, gap_call, gap_sugar. destruct b; [apply obs_ws; destruct (CallForm.space_call (space0 c0)); reflexivity|].
+  destruct (CallForm.space_call (space0 c0)); cbn [app]; unfold sp; rewrite ?obs_ws by reflexivity;
     rewrite erase_kw_paren_l, obs_app, erase_kw_paren_r, app_nil_r; reflexivity.
 Qed.
 Lemma erase_pargs_congr b b' xs xs' : obs xs = obs xs' -> obs (pargs c0 b xs) = obs (pargs c0 b' xs').
 Proof. intros H. rewrite !erase_pargs. exact H. Qed.
-Lemma erase_pexp_nexp : forall e c, obs (pexp (nexp c e)) = obs (pexp e).
+(* the lines of a table written over several lines *)
+Definition tlines (d : nat) (xs : list exp) : list tok := List.concat (map (fun f => indent c0 (S d) ++ pexp (S d) f ++ [kw ","; eol c0]) xs).
+Lemma p_tableml d f fs : pexp d (ETableML (f :: fs)) = kw "{" :: eol c0 :: tlines d (f :: fs) ++ indent c0 d ++ [kw "}"].
+Proof. reflexivity. Qed.
+Lemma erase_tlines_congr d (g : exp -> exp) fs :
+  Forall (fun x => forall d, obs (pexp d (g x)) = obs (pexp d x)) fs -> obs (tlines d (map g fs)) = obs (tlines d fs).
 Proof.
-  induction e using exp_ind'; intros c; cbn [nexp]; try reflexivity.
+  unfold tlines. induction 1 as [|x r Hx Hr IH]; [reflexivity|]. cbn [map List.concat].
+  apply obs_app_congr; [|exact IH]. apply obs_app_congr; [reflexivity|]. apply obs_app_congr; [apply Hx|reflexivity].
+Qed.
+Lemma erase_tableml d (g : exp -> exp) fs :
+  Forall (fun x => forall d, obs (pexp d (g x)) = obs (pexp d x)) fs -> obs (pexp d (ETableML (map g fs))) = obs (pexp d (ETableML fs)).
+Proof.
+  intros H. destruct fs as [|f fs]; [reflexivity|]. change (map g (f :: fs)) with (g f :: map g fs). rewrite !p_tableml.
+  change (g f :: map g fs) with (map g (f :: fs)). apply erase_cons. apply erase_cons. apply obs_app_congr; [apply erase_tlines_congr; exact H|reflexivity].
+Qed.
+Lemma erase_pexp_nexp : forall e c d, obs (pexp d (nexp c e)) = obs (pexp d e).
+Proof.
+  induction e using exp_ind'; intros c d; cbn [nexp]; try reflexivity.
   - (* EField *) cbn [pexp]. congr. apply IHe.
   - (* EIndex *) cbn [pexp]. congr; [apply IHe1|apply IHe2].
   - (* ECall *) cbn [pexp]. rewrite map_map. congr; [apply IHe|]. apply erase_pargs_congr.
-    apply (erase_commas_congr (fun x => pexp (nexp Std x)) (fun x => pexp x)). eapply Forall_impl; [|exact H]. intros a Ha. apply Ha.
+    apply (erase_commas_congr (fun x => pexp d (nexp Std x)) (fun x => pexp d x)). eapply Forall_impl; [|exact H]. intros a Ha. apply Ha.
   - (* EMethod *) cbn [pexp]. rewrite map_map. congr; [apply IHe|]. apply erase_pargs_congr.
-    apply (erase_commas_congr (fun x => pexp (nexp Std x)) (fun x => pexp x)). eapply Forall_impl; [|exact H]. intros a Ha. apply Ha.
+    apply (erase_commas_congr (fun x => pexp d (nexp Std x)) (fun x => pexp d x)). eapply Forall_impl; [|exact H]. intros a Ha. apply Ha.
   - (* EUn *) cbn [pexp]. congr. rewrite erase_guard. apply IHe.
   - (* EBin *) cbn [pexp]. congr; [apply IHe1|apply IHe2].
   - (* EParen *) destruct (droppable c (shape e)).
@@ -129,36 +148,38 @@ Proof.
     + cbn [pexp]. congr. apply IHe.
   - (* ETable *) destruct fs as [|f fs]; [reflexivity|].
     change (nexp c (ETable (f :: fs))) with (ETable (map (nexp Std) (f :: fs))).
-    change (pexp (ETable (map (nexp Std) (f :: fs)))) with (kw "{" :: sp :: commas (map pexp (map (nexp Std) (f :: fs))) ++ [sp; kw "}"]).
-    change (pexp (ETable (f :: fs))) with (kw "{" :: sp :: commas (map pexp (f :: fs)) ++ [sp; kw "}"]).
+    change (pexp d (ETable (map (nexp Std) (f :: fs)))) with (kw "{" :: sp :: commas (map (pexp d) (map (nexp Std) (f :: fs))) ++ [sp; kw "}"]).
+    change (pexp d (ETable (f :: fs))) with (kw "{" :: sp :: commas (map (pexp d) (f :: fs)) ++ [sp; kw "}"]).
     rewrite map_map. congr.
-    apply (erase_commas_congr (fun x => pexp (nexp Std x)) (fun x => pexp x)). eapply Forall_impl; [|exact H]. intros a Ha. apply Ha.
+    apply (erase_commas_congr (fun x => pexp d (nexp Std x)) (fun x => pexp d x)). eapply Forall_impl; [|exact H]. intros a Ha. apply Ha.
   - (* FPos *) cbn [pexp]. apply IHe.
   - (* FNamed *) cbn [pexp]. congr. apply IHe.
   - (* FKey *) cbn [pexp]. congr; [apply IHe1|apply IHe2].
+  - (* ETableML *) apply erase_tableml. eapply Forall_impl; [|exact H]. intros a Ha d0. apply Ha.
 Qed.
 (* the call-form pass: a single argument gains or loses its parentheses, nothing else *)
-Lemma erase_pexp_cexp m : forall e o, obs (pexp (cexp m o e)) = obs (pexp e).
+Lemma erase_pexp_cexp m : forall e o d, obs (pexp d (cexp m o e)) = obs (pexp d e).
 Proof.
-  induction e using exp_ind'; intros o; cbn [cexp]; try reflexivity.
+  induction e using exp_ind'; intros o d; cbn [cexp]; try reflexivity.
   - cbn [pexp]. congr. apply IHe.
   - cbn [pexp]. congr; [apply IHe1|apply IHe2].
   - cbn [pexp]. congr; [apply IHe|]. apply erase_pargs_congr. rewrite map_map.
-    apply (erase_commas_congr (fun x => pexp (cexp m false x)) (fun x => pexp x)). eapply Forall_impl; [|exact H]. intros a Ha. apply Ha.
+    apply (erase_commas_congr (fun x => pexp d (cexp m false x)) (fun x => pexp d x)). eapply Forall_impl; [|exact H]. intros a Ha. apply Ha.
   - cbn [pexp]. congr; [apply IHe|]. apply erase_pargs_congr. rewrite map_map.
-    apply (erase_commas_congr (fun x => pexp (cexp m false x)) (fun x => pexp x)). eapply Forall_impl; [|exact H]. intros a Ha. apply Ha.
+    apply (erase_commas_congr (fun x => pexp d (cexp m false x)) (fun x => pexp d x)). eapply Forall_impl; [|exact H]. intros a Ha. apply Ha.
   - cbn [pexp]. congr. apply IHe.
   - cbn [pexp]. congr; [apply IHe1|apply IHe2].
   - cbn [pexp]. congr. apply IHe.
   - destruct fs as [|f fs]; [reflexivity|].
     change (cexp m o (ETable (f :: fs))) with (ETable (map (cexp m false) (f :: fs))).
-    change (pexp (ETable (map (cexp m false) (f :: fs)))) with (kw "{" :: sp :: commas (map pexp (map (cexp m false) (f :: fs))) ++ [sp; kw "}"]).
-    change (pexp (ETable (f :: fs))) with (kw "{" :: sp :: commas (map pexp (f :: fs)) ++ [sp; kw "}"]).
+    change (pexp d (ETable (map (cexp m false) (f :: fs)))) with (kw "{" :: sp :: commas (map (pexp d) (map (cexp m false) (f :: fs))) ++ [sp; kw "}"]).
+    change (pexp d (ETable (f :: fs))) with (kw "{" :: sp :: commas (map (pexp d) (f :: fs)) ++ [sp; kw "}"]).
     rewrite map_map. congr.
-    apply (erase_commas_congr (fun x => pexp (cexp m false x)) (fun x => pexp x)). eapply Forall_impl; [|exact H]. intros a Ha. apply Ha.
+    apply (erase_commas_congr (fun x => pexp d (cexp m false x)) (fun x => pexp d x)). eapply Forall_impl; [|exact H]. intros a Ha. apply Ha.
   - cbn [pexp]. apply IHe.
   - cbn [pexp]. congr. apply IHe.
   - cbn [pexp]. congr; [apply IHe1|apply IHe2].
+  - apply erase_tableml. eapply Forall_impl; [|exact H]. intros a Ha d0. apply Ha.
 Qed.
 End ObsExp.
 
@@ -166,7 +187,7 @@ End ObsExp.
 Definition fbody (c : cfg0) (d : nat) (b : blk) : list tok :=
   if blk_empty b then [sp; kw "end"]
   else match fun_guard c b with
-       | Some s1 => sp :: psimple c s1 ++ [sp; kw "end"]
+       | Some s1 => if oneline (psimple c d s1) then sp :: psimple c d s1 ++ [sp; kw "end"] else eol c :: pblk c (S d) b ++ indent c d ++ [kw "end"]
        | None => eol c :: pblk c (S d) b ++ indent c d ++ [kw "end"]
        end.
 Section Unfold.
@@ -174,24 +195,24 @@ Variables (c : cfg0) (d : nat).
 Notation pexp := (Fmt0.pexp c).
 Notation pexps := (Fmt0.pexps c).
 Lemma p_do b : pstmt c d (SDo b) = kw "do" :: eol c :: pblk c (S d) b ++ indent c d ++ [kw "end"]. Proof. reflexivity. Qed.
-Lemma p_while e b : pstmt c d (SWhile e b) = kw "while" :: sp :: pexp e ++ sp :: kw "do" :: eol c :: pblk c (S d) b ++ indent c d ++ [kw "end"]. Proof. reflexivity. Qed.
-Lemma p_repeat b e : pstmt c d (SRepeat b e) = kw "repeat" :: eol c :: pblk c (S d) b ++ indent c d ++ kw "until" :: sp :: pexp e. Proof. reflexivity. Qed.
+Lemma p_while e b : pstmt c d (SWhile e b) = kw "while" :: sp :: pexp d e ++ sp :: kw "do" :: eol c :: pblk c (S d) b ++ indent c d ++ [kw "end"]. Proof. reflexivity. Qed.
+Lemma p_repeat b e : pstmt c d (SRepeat b e) = kw "repeat" :: eol c :: pblk c (S d) b ++ indent c d ++ kw "until" :: sp :: pexp d e. Proof. reflexivity. Qed.
 Lemma p_if e t r : pstmt c d (SIf e t r) =
   match if_guard c t r with
-  | Some s1 => kw "if" :: sp :: pexp e ++ sp :: kw "then" :: sp :: psimple c s1 ++ [sp; kw "end"]
-  | None => kw "if" :: sp :: pexp e ++ sp :: kw "then" :: eol c :: pblk c (S d) t ++ pels c d r ++ indent c d ++ [kw "end"]
+  | Some s1 => kw "if" :: sp :: pexp d e ++ sp :: kw "then" :: sp :: psimple c d s1 ++ [sp; kw "end"]
+  | None => kw "if" :: sp :: pexp d e ++ sp :: kw "then" :: eol c :: pblk c (S d) t ++ pels c d r ++ indent c d ++ [kw "end"]
   end. Proof. reflexivity. Qed.
 Lemma p_numfor v a b st body : pstmt c d (SNumFor v a b st body) =
-  kw "for" :: sp :: TIdent v :: sp :: kw "=" :: sp :: pexp a ++ kw "," :: sp :: pexp b ++
-  (match st with Some x => kw "," :: sp :: pexp x | None => [] end) ++ sp :: kw "do" :: eol c :: pblk c (S d) body ++ indent c d ++ [kw "end"]. Proof. reflexivity. Qed.
+  kw "for" :: sp :: TIdent v :: sp :: kw "=" :: sp :: pexp d a ++ kw "," :: sp :: pexp d b ++
+  (match st with Some x => kw "," :: sp :: pexp d x | None => [] end) ++ sp :: kw "do" :: eol c :: pblk c (S d) body ++ indent c d ++ [kw "end"]. Proof. reflexivity. Qed.
 Lemma p_genfor ns es body : pstmt c d (SGenFor ns es body) =
-  kw "for" :: sp :: pnames ns ++ sp :: kw "in" :: sp :: pexps es ++ sp :: kw "do" :: eol c :: pblk c (S d) body ++ indent c d ++ [kw "end"]. Proof. reflexivity. Qed.
+  kw "for" :: sp :: pnames ns ++ sp :: kw "in" :: sp :: pexps d es ++ sp :: kw "do" :: eol c :: pblk c (S d) body ++ indent c d ++ [kw "end"]. Proof. reflexivity. Qed.
 Lemma p_function p m ps va body : pstmt c d (SFunction p m ps va body) =
   kw "function" :: sp :: dotted p ++ (match m with Some n => [kw ":"; TIdent n] | None => [] end) ++ pparams c ps va ++ fbody c d body. Proof. reflexivity. Qed.
 Lemma p_localfunction n ps va body : pstmt c d (SLocalFunction n ps va body) =
   kw "local" :: sp :: kw "function" :: sp :: TIdent n :: pparams c ps va ++ fbody c d body. Proof. reflexivity. Qed.
 Lemma p_else b : pels c d (Else b) = indent c d ++ kw "else" :: eol c :: pblk c (S d) b. Proof. reflexivity. Qed.
-Lemma p_elseif e t r : pels c d (ElseIf e t r) = indent c d ++ kw "elseif" :: sp :: pexp e ++ sp :: kw "then" :: eol c :: pblk c (S d) t ++ pels c d r. Proof. reflexivity. Qed.
+Lemma p_elseif e t r : pels c d (ElseIf e t r) = indent c d ++ kw "elseif" :: sp :: pexp d e ++ sp :: kw "then" :: eol c :: pblk c (S d) t ++ pels c d r. Proof. reflexivity. Qed.
 Lemma p_item l b s t : pitem c d (Item l b s t) = ptrivia c d l ++ (if b then [eol c] else []) ++ indent c d ++ pstmt c d s ++ ptrail t ++ [eol c]. Proof. reflexivity. Qed.
 Lemma p_blk is tl : pblk c d (Blk is tl) = List.concat (map (pitem c d) is) ++ ptrivia c d tl. Proof. reflexivity. Qed.
 End Unfold.
@@ -242,13 +263,13 @@ Variable c : cfg0.
 Notation pexp := (Fmt0.pexp c).
 Notation pexps := (Fmt0.pexps c).
 Ltac congr := repeat first [ reflexivity | assumption | apply obs_app_congr | apply erase_cons ].
-Lemma erase_ncond e : obs (pexp (ncond e)) = obs (pexp e).
+Lemma erase_ncond d e : obs (pexp d (ncond e)) = obs (pexp d e).
 Proof.
   destruct e; try apply erase_pexp_nexp. unfold ncond. rewrite erase_pexp_nexp. cbn [Fmt0.pexp]. symmetry. apply erase_parens.
 Qed.
-Lemma erase_pexps es : obs (pexps (nexps es)) = obs (pexps es).
+Lemma erase_pexps d es : obs (pexps d (nexps es)) = obs (pexps d es).
 Proof.
-  unfold Fmt0.pexps, nexps. rewrite map_map. apply (erase_commas_congr (fun x => pexp (nexp Std x)) (fun x => pexp x)).
+  unfold Fmt0.pexps, nexps. rewrite map_map. apply (erase_commas_congr (fun x => pexp d (nexp Std x)) (fun x => pexp d x)).
   apply Forall_forall. intros x _. apply erase_pexp_nexp.
 Qed.
 Definition Ps (s : stmt) : Prop := forall d, obs (pstmt c d (nstmt s)) = obs (pstmt c d s).
@@ -274,7 +295,7 @@ Lemma if_guard_nblk t r : if_guard c (nblk t) (nels r) = option_map nstmt (if_gu
 Proof. unfold if_guard. destruct (collapse_if (collapse0 c)); [|reflexivity]. destruct r; try reflexivity. apply simple_blk_nblk. Qed.
 Lemma fun_guard_nblk b : fun_guard c (nblk b) = option_map nstmt (fun_guard c b).
 Proof. unfold fun_guard. destruct (collapse_fun (collapse0 c)); [apply simple_blk_nblk|reflexivity]. Qed.
-Lemma erase_psimple s : obs (psimple c (nstmt s)) = obs (psimple c s).
+Lemma erase_psimple d s : obs (psimple c d (nstmt s)) = obs (psimple c d s).
 Proof.
   destruct s; try reflexivity.
   - (* SLocal *) cbn [nstmt]. destruct es as [|e es']; [reflexivity|].
@@ -286,11 +307,17 @@ Proof.
     change (nexps (e :: es')) with (nexp Std e :: nexps es'). cbn [psimple]. congr.
     change (nexp Std e :: nexps es') with (nexps (e :: es')). apply erase_pexps.
 Qed.
+(* the collapsed function body is taken when its statement prints on one line: normalisation does not change that (the
+   hypothesis is discharged, where the section is instantiated, by this very development applied to the observation
+   "the line breaks of a token list") *)
+Hypothesis Hone_n : forall d s, oneline (psimple c d (nstmt s)) = oneline (psimple c d s).
 Lemma erase_fbody b : Be b -> forall d, obs (fbody c d (nblk b)) = obs (fbody c d b).
 Proof.
   intros H d. unfold fbody. rewrite blk_empty_nblk, fun_guard_nblk. destruct (blk_empty b); [reflexivity|].
   destruct (fun_guard c b) as [s1|]; cbn [option_map].
-  - congr. apply erase_psimple.
+  - rewrite Hone_n. destruct (oneline (psimple c d s1)).
+    + congr. apply erase_psimple.
+    + apply erase_cons. apply obs_app_congr; [apply H|reflexivity].
   - apply erase_cons. apply obs_app_congr; [apply H|reflexivity].
 Qed.
 Lemma erase_concat_items is : Forall Ie is -> forall d, obs (List.concat (map (pitem c d) (map nitem is))) = obs (List.concat (map (pitem c d) is)).
@@ -334,10 +361,10 @@ Qed.
 (* the same for any pass that rewrites expressions into expressions with the same observation *)
 Section SMapObs.
 Variable fe : exp -> exp.
-Hypothesis Hfe : forall e, obs (pexp (fe e)) = obs (pexp e).
-Lemma smap_pexps es : obs (pexps (map fe es)) = obs (pexps es).
+Hypothesis Hfe : forall d e, obs (pexp d (fe e)) = obs (pexp d e).
+Lemma smap_pexps d es : obs (pexps d (map fe es)) = obs (pexps d es).
 Proof.
-  unfold Fmt0.pexps. rewrite map_map. apply (erase_commas_congr (fun x => pexp (fe x)) (fun x => pexp x)).
+  unfold Fmt0.pexps. rewrite map_map. apply (erase_commas_congr (fun x => pexp d (fe x)) (fun x => pexp d x)).
   apply Forall_forall. intros x _. apply Hfe.
 Qed.
 Definition Ps' (s : stmt) : Prop := forall d, obs (pstmt c d (smap_s fe s)) = obs (pstmt c d s).
@@ -362,7 +389,7 @@ Lemma if_guard_smap t r : if_guard c (smap_b fe t) (smap_r fe r) = option_map (s
 Proof. unfold if_guard. destruct (collapse_if (collapse0 c)); [|reflexivity]. destruct r; try reflexivity. apply simple_blk_smap. Qed.
 Lemma fun_guard_smap b : fun_guard c (smap_b fe b) = option_map (smap_s fe) (fun_guard c b).
 Proof. unfold fun_guard. destruct (collapse_fun (collapse0 c)); [apply simple_blk_smap|reflexivity]. Qed.
-Lemma smap_psimple s : obs (psimple c (smap_s fe s)) = obs (psimple c s).
+Lemma smap_psimple d s : obs (psimple c d (smap_s fe s)) = obs (psimple c d s).
 Proof.
   destruct s; try reflexivity.
   - cbn [smap_s]. destruct es as [|e es']; [reflexivity|].
@@ -374,11 +401,14 @@ Proof.
     change (map fe (e :: es')) with (fe e :: map fe es'). cbn [psimple]. congr.
     change (fe e :: map fe es') with (map fe (e :: es')). apply smap_pexps.
 Qed.
+Hypothesis Hone_fe : forall d s, oneline (psimple c d (smap_s fe s)) = oneline (psimple c d s).
 Lemma smap_fbody b : Be' b -> forall d, obs (fbody c d (smap_b fe b)) = obs (fbody c d b).
 Proof.
   intros H d. unfold fbody. rewrite blk_empty_smap, fun_guard_smap. destruct (blk_empty b); [reflexivity|].
   destruct (fun_guard c b) as [s1|]; cbn [option_map].
-  - congr. apply smap_psimple.
+  - rewrite Hone_fe. destruct (oneline (psimple c d s1)).
+    + congr. apply smap_psimple.
+    + apply erase_cons. apply obs_app_congr; [apply H|reflexivity].
   - apply erase_cons. apply obs_app_congr; [apply H|reflexivity].
 Qed.
 Lemma smap_concat_items is : Forall Ie' is -> forall d, obs (List.concat (map (pitem c d) (map (smap_i fe) is))) = obs (List.concat (map (pitem c d) is)).
@@ -422,20 +452,48 @@ End SMapObs.
 Transparent pblk.
 Theorem nprog_keeps_obs p : obs (pprog c (nprog p)) = obs (pprog c p).
 Proof. unfold pprog, nprog. apply (proj2 erase_prog_all). Qed.
+Hypothesis Hone_c : forall m d s, oneline (psimple c d (smap_s (cexp m false) s)) = oneline (psimple c d s).
 Theorem cprog_keeps_obs m p : obs (pprog c (cprog m p)) = obs (pprog c p).
-Proof. unfold pprog, cprog. apply (proj2 (smap_obs_all (cexp m false) (fun e => erase_pexp_cexp c m e false))). Qed.
+Proof. unfold pprog, cprog. apply (proj2 (smap_obs_all (cexp m false) (fun d e => erase_pexp_cexp c m e false d) (Hone_c m))). Qed.
 (* both passes together: what format0 prints *)
 Theorem format0_keeps_obs p : obs (pprog c (norm0 c p)) = obs (pprog c p).
 Proof. unfold norm0. rewrite cprog_keeps_obs. apply nprog_keeps_obs. Qed.
 End EraseProg.
 End Obs.
 
-(* the two instances *)
+(* an auxiliary instance first: the line breaks of a token list.  It shows that neither pass changes whether a simple
+   statement prints on one line, which is what the hypotheses Hone_n / Hone_c of the section ask for *)
+Definition isbreak (t : tok) : bool := match t with TWs w => existsb (fun ch => Ascii.eqb ch LF) w | _ => false end.
+Definition lb (ts : list tok) : list tok := filter isbreak ts.
+Lemma oneline_lb ts : oneline ts = match lb ts with [] => true | _ => false end.
+Proof.
+  induction ts as [|t r IH]; [reflexivity|]. unfold oneline, lb in *. cbn [forallb filter]. destruct t; cbn [isbreak]; try exact IH.
+  destruct (existsb (fun ch => Ascii.eqb ch LF) s); cbn [negb andb]; [reflexivity|exact IH].
+Qed.
+Lemma lb_cons_inst t r r' : lb r = lb r' -> lb (t :: r) = lb (t :: r').
+Proof. intros H. unfold lb in *. cbn [filter]. rewrite H. reflexivity. Qed.
+Lemma blank_no_lf w : forallb blank w = true -> existsb (fun ch => Ascii.eqb ch LF) w = false.
+Proof.
+  induction w as [|x r IH]; [reflexivity|]. cbn [forallb existsb]. intros H. apply andb_true_iff in H. destruct H as [B R]. rewrite (IH R), orb_false_r.
+  unfold blank, eqc in B. destruct (Ascii.eqb x LF) eqn:E; [|reflexivity]. apply Ascii.eqb_eq in E. subst x. discriminate.
+Qed.
+Lemma lb_ws w r : forallb blank w = true -> lb (TWs w :: r) = lb r.
+Proof. intros H. unfold lb. cbn [filter isbreak]. rewrite (blank_no_lf w H). reflexivity. Qed.
+Ltac lb_hyps := first [ reflexivity | apply filter_app | apply lb_cons_inst | apply lb_ws | (intros; apply filter_app) | (intros; apply lb_cons_inst; assumption) | (intros; apply lb_ws; assumption) | (intros; reflexivity) ].
+Lemma oneline_psimple_nstmt c d s : oneline (psimple c d (nstmt s)) = oneline (psimple c d s).
+Proof. rewrite !oneline_lb. erewrite (erase_psimple lb); [reflexivity|..]; lb_hyps. Qed.
+Lemma oneline_psimple_cexp c m d s : oneline (psimple c d (smap_s (cexp m false) s)) = oneline (psimple c d s).
+Proof.
+  rewrite !oneline_lb. erewrite (smap_psimple lb); [reflexivity|..]; try lb_hyps.
+  intros d0 e. apply (erase_pexp_cexp lb); lb_hyps.
+Qed.
+
+(* the two instances the properties use *)
 Lemma erase_cons_inst dl t r r' : erase dl r = erase dl r' -> erase dl (t :: r) = erase dl (t :: r').
 Proof. intros H. destruct t; cbn [erase]; rewrite H; reflexivity. Qed.
 Theorem format0_keeps_erasure dl c p : erase dl (pprog c (norm0 c p)) = erase dl (pprog c p).
 Proof.
-  apply (format0_keeps_obs (erase dl)); [reflexivity|apply erase_app|apply erase_cons_inst|reflexivity|reflexivity|reflexivity|reflexivity].
+  apply (format0_keeps_obs (erase dl)); [reflexivity|apply erase_app|apply erase_cons_inst|reflexivity|reflexivity|reflexivity|reflexivity|apply oneline_psimple_nstmt|apply oneline_psimple_cexp].
 Qed.
 Lemma census_cons_inst t r r' : census r = census r' -> census (t :: r) = census (t :: r').
 Proof. intros H. cbn [census]. rewrite H. reflexivity. Qed.
@@ -444,7 +502,7 @@ Proof. induction a as [|t a IH]; [reflexivity|]. cbn [app census]. rewrite IH. d
 (* C03 on L0: normalisation leaves every comment where it is *)
 Theorem format0_keeps_comments c p : census (pprog c (norm0 c p)) = census (pprog c p).
 Proof.
-  apply (format0_keeps_obs census); [reflexivity|apply census_app|apply census_cons_inst|reflexivity|reflexivity|reflexivity|reflexivity].
+  apply (format0_keeps_obs census); [reflexivity|apply census_app|apply census_cons_inst|reflexivity|reflexivity|reflexivity|reflexivity|apply oneline_psimple_nstmt|apply oneline_psimple_cexp].
 Qed.
 
 (* ---------- C03 on whole programs: the comments of the output are the comments of the program, each once, in order ---------- *)
@@ -477,22 +535,26 @@ Lemma census_pargs b xs : census (pargs c b xs) = census xs.
 Proof.
   unfold pargs, gap_call, gap_sugar. destruct b; [reflexivity|]. destruct (CallForm.space_call (space0 c)); cbn [app]; rewrite ?census_sp, census_kw, census_app; cbn [census norm_com]; apply app_nil_r.
 Qed.
-Lemma census_pexp : forall e, census (pexp e) = [].
+Lemma census_pexp : forall e d, census (pexp d e) = [].
 Proof.
-  induction e using exp_ind'; cbn [Fmt0.pexp]; try reflexivity.
+  induction e using exp_ind'; intros d; cbn [Fmt0.pexp]; try reflexivity.
   - rewrite census_app, IHe. reflexivity.
   - rewrite census_app, IHe1, census_kw, census_app, IHe2. reflexivity.
-  - rewrite census_app, IHe, census_pargs, census_commas; [reflexivity|apply Forall_map; exact H].
-  - rewrite census_app, IHe, census_kw, census_ident, census_pargs, census_commas; [reflexivity|apply Forall_map; exact H].
+  - rewrite census_app, IHe, census_pargs, census_commas; [reflexivity|apply Forall_map; eapply Forall_impl; [|exact H]; intros a0 Ha0; apply Ha0].
+  - rewrite census_app, IHe, census_kw, census_ident, census_pargs, census_commas; [reflexivity|apply Forall_map; eapply Forall_impl; [|exact H]; intros a0 Ha0; apply Ha0].
   - rewrite census_app, IHe. destruct u; reflexivity.
-  - rewrite census_app, IHe1, census_sp, census_kw, census_sp. exact IHe2.
+  - rewrite census_app, IHe1, census_sp, census_kw, census_sp. apply IHe2.
   - rewrite census_kw, census_app, IHe. reflexivity.
-  - destruct fs as [|f fs]; [reflexivity|]. rewrite census_kw, census_sp, census_app, census_commas; [reflexivity|apply Forall_map; exact H].
-  - exact IHe.
-  - rewrite census_ident, census_sp, census_kw, census_sp. exact IHe.
-  - rewrite census_kw, census_app, IHe1, census_kw, census_sp, census_kw, census_sp. exact IHe2.
+  - destruct fs as [|f fs]; [reflexivity|]. rewrite census_kw, census_sp, census_app, census_commas; [reflexivity|apply Forall_map; eapply Forall_impl; [|exact H]; intros a0 Ha0; apply Ha0].
+  - apply IHe.
+  - rewrite census_ident, census_sp, census_kw, census_sp. apply IHe.
+  - rewrite census_kw, census_app, IHe1, census_kw, census_sp, census_kw, census_sp. apply IHe2.
+  - destruct fs as [|f fs]; [reflexivity|]. rewrite census_kw, census_eol, census_app.
+    assert (E : census (List.concat (map (fun f0 => indent c (S d) ++ pexp (S d) f0 ++ [kw ","; eol c]) (f :: fs))) = []).
+    { induction H as [|x r Hx Hr IH]; [reflexivity|]. cbn [map List.concat]. rewrite census_app, census_indent, census_app, Hx, IH. reflexivity. }
+    rewrite E, census_indent. reflexivity.
 Qed.
-Lemma census_pexps es : census (pexps es) = [].
+Lemma census_pexps d es : census (pexps d es) = [].
 Proof. apply census_commas. apply Forall_map. apply Forall_forall. intros x _. apply census_pexp. Qed.
 Lemma census_pnames ns : census (pnames ns) = [].
 Proof. apply census_commas. apply Forall_map. apply Forall_forall. intros x _. reflexivity. Qed.
@@ -515,7 +577,7 @@ Definition Pc (s : stmt) : Prop := forall d, census (pstmt c d s) = lc (coms_s s
 Definition Qc (r : els) : Prop := forall d, census (pels c d r) = lc (coms_e r).
 Definition Ic (i : item) : Prop := forall d, census (pitem c d i) = lc (coms_i i).
 Definition Bc (b : blk) : Prop := forall d, census (pblk c d b) = lc (coms_b b).
-Lemma census_psimple s : census (psimple c s) = [].
+Lemma census_psimple d s : census (psimple c d s) = [].
 Proof.
   destruct s; try reflexivity; cbn [psimple].
   - destruct es; rewrite census_kw, census_sp; [apply census_pnames|]. rewrite census_app, census_pnames, census_sp, census_kw, census_sp. apply census_pexps.
@@ -540,7 +602,9 @@ Proof.
   intros H. unfold fbody. destruct (blk_empty b) eqn:E.
   - destruct b as [is tl]. destruct is; [destruct tl|]; try discriminate. reflexivity.
   - destruct (fun_guard c b) as [s1|] eqn:G.
-    + rewrite (fun_guard_coms b s1 G), census_sp, census_app, census_psimple. reflexivity.
+    + destruct (oneline (psimple c d s1)).
+      * rewrite (fun_guard_coms b s1 G), census_sp, census_app, census_psimple. reflexivity.
+      * rewrite census_eol, census_app, H, census_indent. cbn [census norm_com]. rewrite app_nil_r. reflexivity.
     + rewrite census_eol, census_app, H, census_indent. cbn [census norm_com]. rewrite app_nil_r. reflexivity.
 Qed.
 Opaque pblk.
@@ -567,7 +631,7 @@ Proof.
       * rewrite census_kw, census_sp, census_app, census_pexp, census_sp, census_kw, census_eol, census_app, H, census_app, H0, census_indent.
         cbn [census norm_com coms_s]. rewrite app_nil_r, lc_app. reflexivity.
     + rewrite p_numfor, census_kw, census_sp, census_ident, census_sp, census_kw, census_sp, census_app, census_pexp, census_kw, census_sp, census_app, census_pexp, census_app.
-      assert (E : census (match st with Some x => kw "," :: sp :: pexp x | None => [] end) = []) by (destruct st; [rewrite census_kw, census_sp; apply census_pexp|reflexivity]).
+      assert (E : census (match st with Some x => kw "," :: sp :: pexp d x | None => [] end) = []) by (destruct st; [rewrite census_kw, census_sp; apply census_pexp|reflexivity]).
       rewrite E, census_sp, census_kw, census_eol, census_app, H, census_indent. cbn [census norm_com coms_s]. rewrite app_nil_r. reflexivity.
     + rewrite p_genfor, census_kw, census_sp, census_app, census_pnames, census_sp, census_kw, census_sp, census_app, census_pexps, census_sp, census_kw, census_eol, census_app, H, census_indent.
       cbn [census norm_com coms_s]. rewrite app_nil_r. reflexivity.
@@ -688,23 +752,31 @@ Proof.
   { destruct (CallForm.space_call (space0 c)); [rewrite (run_blanks 1)|rewrite (run_blanks 0)]; apply run_commas_false; exact H. }
   destruct (CallForm.space_call (space0 c)); cbn [app]; rewrite ?run_sp, run_kw, run_app, run_commas_false by exact H; reflexivity.
 Qed.
-Lemma inline_pexp : forall e, inline (pexp e).
+Lemma inline_pexp : forall e d, inline (pexp d e).
 Proof.
-  induction e using exp_ind'; intros b0; cbn [Fmt0.pexp]; try reflexivity.
+  induction e using exp_ind'; intros d b0; cbn [Fmt0.pexp]; try reflexivity.
   - rewrite run_app, IHe. reflexivity.
   - rewrite run_app, IHe1, run_kw, run_app, IHe2. reflexivity.
-  - rewrite run_app, IHe. apply run_pargs. apply Forall_map. exact H.
-  - rewrite run_app, IHe, run_kw. rewrite run_plain by reflexivity. apply run_pargs. apply Forall_map. exact H.
+  - rewrite run_app, IHe. apply run_pargs. apply Forall_map. eapply Forall_impl; [|exact H]. intros a0 Ha0. apply Ha0.
+  - rewrite run_app, IHe, run_kw. rewrite run_plain by reflexivity. apply run_pargs. apply Forall_map. eapply Forall_impl; [|exact H]. intros a0 Ha0. apply Ha0.
   - rewrite run_app. destruct u; cbn [uop_toks]; try (rewrite run_kw; cbn [run]; apply IHe).
   - rewrite run_app, IHe1, run_sp, run_kw, run_sp. apply IHe2.
   - rewrite run_kw, run_app, IHe. reflexivity.
   - destruct fs as [|f fs]; [reflexivity|]. rewrite run_kw, run_sp, run_app.
-    rewrite (inline_commas_ne (map pexp (f :: fs))); [rewrite run_sp; reflexivity|discriminate|]. apply Forall_map. exact H.
+    rewrite (inline_commas_ne (map (pexp d) (f :: fs))); [rewrite run_sp; reflexivity|discriminate|]. apply Forall_map. eapply Forall_impl; [|exact H]. intros a0 Ha0. apply Ha0.
   - apply IHe.
   - rewrite run_plain by reflexivity. rewrite run_sp, run_kw, run_sp. apply IHe.
   - rewrite run_kw, run_app, IHe1, run_kw, run_sp, run_kw, run_sp. apply IHe2.
+  - (* a table over several lines: every line starts with the indentation of its level and ends behind a comma *)
+    destruct fs as [|f fs]; [reflexivity|]. rewrite run_kw, run_eol, run_app.
+    assert (E : run true (List.concat (map (fun f0 => indent c (S d) ++ pexp (S d) f0 ++ [kw ","; eol c]) (f :: fs))) = Some true).
+    { induction H as [|x r Hx Hr IH]; [reflexivity|]. cbn [map List.concat]. rewrite run_app.
+      assert (L : run true (indent c (S d) ++ pexp (S d) x ++ [kw ","; eol c]) = Some true).
+      { rewrite run_indent, run_app, Hx, run_kw, run_eol. reflexivity. }
+      rewrite L. exact IH. }
+    rewrite E, run_indent. reflexivity.
 Qed.
-Lemma inline_pexps_false es : run false (pexps es) = Some false.
+Lemma inline_pexps_false d es : run false (pexps d es) = Some false.
 Proof. apply run_commas_false. apply Forall_map. apply Forall_forall. intros x _. apply inline_pexp. Qed.
 Lemma inline_pnames_false ns : run false (pnames ns) = Some false.
 Proof. apply run_commas_false. apply Forall_map. apply Forall_forall. intros x _ b. reflexivity. Qed.
@@ -747,13 +819,13 @@ Definition Bw (b : blk) : Prop := wf_blk b -> forall d, run true (pblk c d b) = 
 Lemma run_block_end b d : Bw b -> wf_blk b -> run true (pblk c (S d) b ++ indent c d ++ [kw "end"]) = Some false.
 Proof. intros H W. rewrite run_app, H by exact W. rewrite run_indent. reflexivity. Qed.
 (* the statement of a collapsed block *)
-Lemma run_psimple s b0 : wf_stmt s -> run b0 (psimple c s) = Some false \/ psimple c s = [].
+Lemma run_psimple d s b0 : wf_stmt s -> run b0 (psimple c d s) = Some false \/ psimple c d s = [].
 Proof.
   intros W. destruct s; try (right; reflexivity); left; cbn [psimple].
   - destruct es as [|e es']; rewrite run_kw, run_sp; [apply inline_pnames_false|].
     rewrite run_app, inline_pnames_false, run_sp, run_kw, run_sp. apply inline_pexps_false.
   - rewrite run_app. cbn [wf_stmt] in W.
-    rewrite (inline_commas_ne (map pexp vs)); [|destruct vs; [contradiction|discriminate]|apply Forall_map; apply Forall_forall; intros x _; apply inline_pexp].
+    rewrite (inline_commas_ne (map (pexp d) vs)); [|destruct vs; [contradiction|discriminate]|apply Forall_map; apply Forall_forall; intros x _; apply inline_pexp].
     rewrite run_sp, run_kw, run_sp. apply inline_pexps_false.
   - apply inline_pexp.
   - destruct es as [|e es']; [reflexivity|]. rewrite run_kw, run_sp. apply inline_pexps_false.
@@ -766,9 +838,9 @@ Proof.
     intros E W. injection E as <-. rewrite wf_blk_eq in W. destruct W as [[(_ & W & _) _] _]. exact W.
   - destruct l; [|discriminate]. destruct t; discriminate.
 Qed.
-Lemma run_collapsed s1 r : wf_stmt s1 -> run false (sp :: psimple c s1 ++ sp :: kw "end" :: r) = run false r.
+Lemma run_collapsed d s1 r : wf_stmt s1 -> run false (sp :: psimple c d s1 ++ sp :: kw "end" :: r) = run false r.
 Proof.
-  intros W. rewrite run_sp. destruct (run_psimple s1 false W) as [E|E].
+  intros W. rewrite run_sp. destruct (run_psimple d s1 false W) as [E|E].
   - rewrite run_app, E, run_sp, run_kw. reflexivity.
   - rewrite E. cbn [app]. rewrite run_sp, run_kw. reflexivity.
 Qed.
@@ -776,7 +848,9 @@ Lemma run_fbody b d : Bw b -> wf_blk b -> run false (fbody c d b) = Some false.
 Proof.
   intros H W. unfold fbody. destruct (blk_empty b); [rewrite run_sp; reflexivity|].
   destruct (fun_guard c b) as [s1|] eqn:G.
-  - unfold fun_guard in G. destruct (collapse_fun (collapse0 c)); [|discriminate]. apply (run_collapsed s1 []). apply (simple_blk_wf b s1 G W).
+  - destruct (oneline (psimple c d s1)).
+    + unfold fun_guard in G. destruct (collapse_fun (collapse0 c)); [|discriminate]. apply (run_collapsed d s1 []). apply (simple_blk_wf b s1 G W).
+    + rewrite run_eol. apply run_block_end; assumption.
   - rewrite run_eol. apply run_block_end; assumption.
 Qed.
 Opaque pblk.
@@ -790,7 +864,7 @@ Proof.
       * apply inline_pnames_false.
       * rewrite run_app, inline_pnames_false, run_sp, run_kw, run_sp. apply inline_pexps_false.
     + (* SAssign *) cbn [pstmt psimple]. rewrite run_app. cbn [wf_stmt] in H.
-      rewrite (inline_commas_ne (map pexp vs)); [|destruct vs; [contradiction|discriminate]|apply Forall_map; apply Forall_forall; intros x _; apply inline_pexp].
+      rewrite (inline_commas_ne (map (pexp d) vs)); [|destruct vs; [contradiction|discriminate]|apply Forall_map; apply Forall_forall; intros x _; apply inline_pexp].
       rewrite run_sp, run_kw, run_sp. apply inline_pexps_false.
     + (* SCall *) cbn [pstmt psimple]. apply inline_pexp.
     + (* SDo *) rewrite p_do, run_kw, run_eol. apply run_block_end; assumption.
@@ -798,11 +872,11 @@ Proof.
     + (* SRepeat *) rewrite p_repeat, run_kw, run_eol, run_app, H by exact H0. rewrite run_indent. rewrite run_kw, run_sp. apply inline_pexp.
     + (* SIf *) destruct H1 as [W1 W2]. rewrite p_if. destruct (if_guard c t r) as [s1|] eqn:G.
       * unfold if_guard in G. destruct (collapse_if (collapse0 c)); [|discriminate]. destruct r; try discriminate.
-        rewrite run_kw, run_sp, run_app, inline_pexp, run_sp, run_kw. apply (run_collapsed s1 []). apply (simple_blk_wf t s1 G W1).
+        rewrite run_kw, run_sp, run_app, inline_pexp, run_sp, run_kw. apply (run_collapsed d s1 []). apply (simple_blk_wf t s1 G W1).
       * rewrite run_kw, run_sp, run_app, inline_pexp, run_sp, run_kw, run_eol.
         rewrite run_app, H by exact W1. rewrite run_app, H0 by exact W2. rewrite run_indent. reflexivity.
     + (* SNumFor *) rewrite p_numfor, run_kw, run_sp. rewrite run_plain by reflexivity. rewrite run_sp, run_kw, run_sp, run_app, inline_pexp, run_kw, run_sp, run_app, inline_pexp.
-      rewrite run_app. assert (E : run false (match st with Some x => kw "," :: sp :: pexp x | None => [] end) = Some false).
+      rewrite run_app. assert (E : run false (match st with Some x => kw "," :: sp :: pexp d x | None => [] end) = Some false).
       { destruct st; [rewrite run_kw, run_sp; apply inline_pexp|reflexivity]. }
       rewrite E, run_sp, run_kw, run_eol. apply run_block_end; assumption.
     + (* SGenFor *) rewrite p_genfor, run_kw, run_sp, run_app, inline_pnames_false, run_sp, run_kw, run_sp, run_app, inline_pexps_false, run_sp, run_kw, run_eol.
@@ -914,7 +988,7 @@ Fixpoint calls_ok (m : CallForm.cmode) (o : bool) (e : exp) : bool :=
   | EMethod ob _ sg args => CallForm.form_ok m (out_form sg args) (akind_args args) o && calls_ok m true ob && all args
   | EUn _ x | EParen x | FPos x | FNamed _ x => calls_ok m false x
   | EBin _ l r | FKey l r => calls_ok m false l && calls_ok m false r
-  | ETable fs => all fs
+  | ETable fs | ETableML fs => all fs
   | _ => true
   end.
 Definition calls_okl (m : CallForm.cmode) (l : list exp) : bool := forallb (calls_ok m false) l.
@@ -930,19 +1004,24 @@ Proof.
     rewrite (calls_okl_map m args H), akind_map_cexp. unfold out_form. rewrite aform_args_eff, aform_map_cexp, newsg_form.
     rewrite (CallForm.call_form_obeys_rule m _ _ o (wf_call_args sg args)). reflexivity.
   - change (calls_okl m (map (cexp m false) fs) = true). apply calls_okl_map. exact H.
+  - change (calls_okl m (map (cexp m false) fs) = true). apply calls_okl_map. exact H.
 Qed.
 (* under Input the pass prints every call as it was written *)
-Theorem cexp_input_prints_the_same c : forall e o, pexp c (cexp CallForm.Input o e) = pexp c e.
+Theorem cexp_input_prints_the_same c : forall e o d, pexp c d (cexp CallForm.Input o e) = pexp c d e.
 Proof.
-  assert (M : forall l, Forall (fun e => forall o, pexp c (cexp CallForm.Input o e) = pexp c e) l -> map (pexp c) (map (cexp CallForm.Input false) l) = map (pexp c) l).
-  { induction 1 as [|x r Hx Hr IH]; [reflexivity|]. cbn [map]. rewrite Hx, IH. reflexivity. }
+  assert (M : forall l d, Forall (fun e => forall o d, pexp c d (cexp CallForm.Input o e) = pexp c d e) l -> map (pexp c d) (map (cexp CallForm.Input false) l) = map (pexp c d) l).
+  { intros l d. induction 1 as [|x r Hx Hr IH]; [reflexivity|]. cbn [map]. rewrite Hx, IH. reflexivity. }
   assert (F : forall o sg args, newsg CallForm.Input o sg args && sugarable (map (cexp CallForm.Input false) args) = sg && sugarable args).
   { intros o sg args. rewrite sugarable_map_cexp. unfold newsg. rewrite CallForm.input_keeps_form.
     destruct sg; [|reflexivity]. destruct args as [|x [|y r]]; try reflexivity; destruct x; reflexivity. }
-  induction e using exp_ind'; intros o; cbn [cexp pexp]; try reflexivity; rewrite ?IHe, ?IHe1, ?IHe2; try reflexivity.
-  - rewrite F, (M args H). reflexivity.
-  - rewrite F, (M args H). reflexivity.
-  - destruct fs as [|f fs]; [reflexivity|]. pose proof (M (f :: fs) H) as Q. cbn [map] in Q. cbn [map pexp]. rewrite Q. reflexivity.
+  induction e using exp_ind'; intros o d; cbn [cexp]; try reflexivity; try (cbn [pexp]; rewrite ?IHe, ?IHe1, ?IHe2; reflexivity).
+  - cbn [pexp]. rewrite IHe, F, (M args d H). reflexivity.
+  - cbn [pexp]. rewrite IHe, F, (M args d H). reflexivity.
+  - destruct fs as [|f fs]; [reflexivity|]. pose proof (M (f :: fs) d H) as Q. cbn [map] in Q. cbn [map pexp]. rewrite Q. reflexivity.
+  - destruct fs as [|f fs]; [reflexivity|]. cbn [map]. rewrite !(p_tableml c). f_equal. f_equal. f_equal.
+    change (cexp CallForm.Input false f :: map (cexp CallForm.Input false) fs) with (map (cexp CallForm.Input false) (f :: fs)).
+    unfold tlines. rewrite map_map. f_equal.
+    clear -H. induction H as [|x r Hx Hr IH]; [reflexivity|]. cbn [map]. rewrite Hx, IH. reflexivity.
 Qed.
 (* the rule on whole programs: a predicate on every expression of a program, with "nothing follows" at the roots *)
 Section SAll.
@@ -1000,5 +1079,6 @@ Proof.
   induction e using exp_ind'; intros o; cbn [cexp]; try reflexivity; rewrite ?IHe, ?IHe1, ?IHe2; try reflexivity.
   - rewrite F, (M args H). reflexivity.
   - rewrite F, (M args H). reflexivity.
+  - rewrite (M fs H). reflexivity.
   - rewrite (M fs H). reflexivity.
 Qed.
